@@ -367,6 +367,9 @@ func (w *World) genClause(segOK bool) *J {
 				v = w.scalarOfType([]int{1, 1, 1, 6}[r.Intn(4)])
 			case "before", "after":
 				v = w.scalarOfType([]int{3, 3, 1, 2}[r.Intn(4)])
+				if r.P(0.1) { // instants before the epoch, as numbers
+					v = JNum([]float64{-1, -315619200000, -86400000.5, -1e15}[r.Intn(4)])
+				}
 				if r.P(0.12) { // the instant whose Go representation is the zero time.Time, in its three spellings
 					v = []*J{JStr("0001-01-01T00:00:00Z"), JStr("0000-12-31T23:00:00-01:00"), JNum(-62135596800000)}[r.Intn(3)]
 				}
@@ -538,7 +541,10 @@ func (w *World) genRollout(flagKey, salt string, nvars int) *J {
 	}
 	vars := &J{K: 'a', A: []*J{}}
 	for _, wt := range weights {
-		v := JObj(KV{"variation", JInt(int64(r.Intn(nvars + 1)))}, KV{"weight", JInt(wt)})
+		v := JObj(KV{"variation", JInt(int64(r.Intn(nvars + 1)))})
+		if wt != 0 || r.P(0.7) { // a zero weight may simply be absent
+			v.Set("weight", JInt(wt))
+		}
 		if r.P(0.2) {
 			v.Set("untracked", JBool(r.P(0.8)))
 		}
@@ -613,7 +619,11 @@ func (w *World) genFlag(key string, prereqPool []string) *J {
 	pre := &J{K: 'a', A: []*J{}}
 	if r.P(p.PPrereq) {
 		for i := 0; i < r.Range(1, p.MaxPrereq); i++ {
-			pre.A = append(pre.A, JObj(KV{"key", JStr(r.Pick(prereqPool))}, KV{"variation", JInt(int64(r.Intn(nvars)))}))
+			pq := JObj(KV{"key", JStr(r.Pick(prereqPool))})
+			if pv := int64(r.Intn(nvars)); pv != 0 || r.P(0.6) { // hand-written documents leave a zero variation out
+				pq.Set("variation", JInt(pv))
+			}
+			pre.A = append(pre.A, pq)
 		}
 	}
 	f.Set("prerequisites", pre)
@@ -994,9 +1004,31 @@ func (w *World) addChain(c *EvalCase) {
 	mode := r.Intn(4) // 0 plain chain, 1 diamond at every level, 2 cycle back to the top, 3 cycle in the middle
 	mk := func(i int) string { return fmt.Sprintf("c%d", i) }
 	// flags: top -> c0 -> c1 ... each requires variation 0 of the next; all serve variation 0 via fallthrough
+	// aux: some chain flags first require a leaf flag whose rule tests a segment -- so segment evaluation happens with a
+	// deep prerequisite path on the stack -- and that segment may carry the same key as the next flag of the chain
+	// (flag keys and segment keys are separate namespaces: a segment on the segment path is not a flag on the flag path)
+	auxMode := r.P(0.5)
 	for i := 0; i < depth; i++ {
 		f := JObj(KV{"key", JStr(mk(i))}, KV{"on", JBool(true)})
 		pre := &J{K: 'a', A: []*J{}}
+		if auxMode && i+1 < depth && (r.P(0.15) || (i >= 18 && i <= 22)) {
+			ak := fmt.Sprintf("a%d", i)
+			segKey := mk(i + 1)
+			if r.P(0.3) {
+				segKey = "d0"
+			}
+			aux := JObj(KV{"key", JStr(ak)}, KV{"on", JBool(true)}, KV{"prerequisites", JArr()},
+				KV{"rules", JArr(JObj(KV{"id", JStr("s")}, KV{"variation", JInt(0)}, KV{"clauses", JArr(JObj(KV{"attribute", JStr("")},
+					KV{"op", JStr("segmentMatch")}, KV{"values", JArr(JStr(segKey))}, KV{"negate", JBool(false)}))}))},
+				KV{"fallthrough", JObj(KV{"variation", JInt(0)})}, KV{"offVariation", JInt(1)},
+				KV{"variations", JArr(JStr("x"), JStr("y"))}, KV{"salt", JStr("")}, KV{"version", JInt(1)})
+			c.Flags = append(c.Flags, Item{Key: ak, Form: 1, Doc: aux})
+			if segKey != "d0" {
+				c.Segs = append(c.Segs, Item{Key: segKey, Form: 1, Doc: JObj(KV{"key", JStr(segKey)}, KV{"included", JArr(JStr(w.r.Pick(ctxKeys)))},
+					KV{"excluded", JArr()}, KV{"rules", JArr()}, KV{"salt", JStr("")}, KV{"version", JInt(1)})})
+			}
+			pre.A = append(pre.A, JObj(KV{"key", JStr(ak)}, KV{"variation", JInt(0)}))
+		}
 		if i+1 < depth {
 			pre.A = append(pre.A, JObj(KV{"key", JStr(mk(i + 1))}, KV{"variation", JInt(0)}))
 			if mode == 1 && i+2 < depth && (depth <= 10 || i%(depth/3+1) == 0) { // a few diamonds: every extra edge doubles the work
